@@ -34,9 +34,14 @@ var c11Shapes = map[string]string{
 	"concat":    `var s = ""; while (true) { s += "x"; if (s.length > 1000) { s = ""; } TICK }`,
 	"property":  `var o = {n: 0}; while (true) { o.n = o.n + 1; o["k" + (o.n % 10)] = o.n; TICK }`,
 	"nested-fn": `function g(n) { if (n > 50) { return 0; } return g(n + 1) + 1; } while (true) { g(0); TICK }`,
+	// the time is spent after the script proper has ended: in the string conversion of what it threw, in a
+	// getter of what it returned
+	"throw-tostring-loop": `throw {toString: function() { while (true) { TICK } }};`,
+	"return-getter-loop":  `return {get a() { while (true) { TICK } }};`,
+	"throw-message-loop":  `var e = new Error("x"); Object.defineProperty(e, "message", {get: function() { while (true) { TICK } }}); throw e;`,
 }
 
-var c11ShapeOrder = []string{"while", "for-count", "recursion", "push", "concat", "property", "nested-fn"}
+var c11ShapeOrder = []string{"while", "for-count", "recursion", "push", "concat", "property", "nested-fn", "throw-tostring-loop", "return-getter-loop", "throw-message-loop"}
 
 // afterDoneLimit: how many ticks a script may still make after its context is done.  Under
 // GOMAXPROCS=1 the watcher only gets to run when the script goroutine is preempted, so the
@@ -447,7 +452,7 @@ func C11(c *vh.Ctx) {
 	}
 	c.Bound("cancel_at_tick_max", K)
 	c.Bound("deadlines_ms", deadlines)
-	c.Rule("script shapes {while(true), counting for, unbounded recursion, array push, string concatenation, property read/write, nested calls in a loop}, with and without a harness tick in the loop body, as action and as guard x cancellation {context already cancelled, deadline already expired, cancel delivered at tick k for k=1..K (with and without a far deadline in the context's ancestry), real deadlines} x error routing {none, ActionErrorNode, ActionErrorBranches} x n in {1,2,4} concurrent executions with independent contexts; oracle: the walk returns (90 s horizon), the script makes no more than a (very large) number of ticks after its context is done, the result is the timeout error routed like any action error, and every goroutine started during the call is gone afterwards (10 s grace). Bystander family: while one execution keeps running under a context that is never cancelled, a second execution on the same interpreter (source text compiled by Exec itself, or one shared compiled program) or on the same compiled spec, whose context is already cancelled / already expired / cancelled at its second tick / expires after 5 ms, must stop while the first is still running (the first gives up after 10^7 ticks, which is then a violation). 'Promptly' in milliseconds is not decided.")
+	c.Rule("script shapes {while(true), counting for, unbounded recursion, array push, string concatenation, property read/write, nested calls in a loop, a loop in the toString of a thrown object, in a getter of the returned object, in the message getter of a thrown Error}, with and without a harness tick in the loop body, as action and as guard x cancellation {context already cancelled, deadline already expired, cancel delivered at tick k for k=1..K (with and without a far deadline in the context's ancestry), real deadlines} x error routing {none, ActionErrorNode, ActionErrorBranches} x n in {1,2,4} concurrent executions with independent contexts; oracle: the walk returns (90 s horizon), the script makes no more than a (very large) number of ticks after its context is done, the result is the timeout error routed like any action error, and every goroutine started during the call is gone afterwards (10 s grace). Bystander family: while one execution keeps running under a context that is never cancelled, a second execution on the same interpreter (source text compiled by Exec itself, or one shared compiled program) or on the same compiled spec, whose context is already cancelled / already expired / cancelled at its second tick / expires after 5 ms, must stop while the first is still running (the first gives up after 10^7 ticks, which is then a violation). 'Promptly' in milliseconds is not decided.")
 	var idx uint64
 	for _, kind := range []string{"exec-source", "exec-compiled", "walk-shared-spec"} {
 		for _, victim := range []string{"cancelled", "expired", "tick", "deadline"} {
